@@ -32,6 +32,45 @@ def frames():
 # K, LV and SC are objects of the caller's context: a list of knots, a list of levels and an array (they must never be written to)
 FORMULA = "scale(x) + A + B + A:B + poly(w, 2) + C(B, contr.sum):x + A:D:E + B:D:E:A + bs(w, knots=K, extrapolation='clip') + C(D, levels=LV) + I(x * SC[0]) + center(`a b`) + scale(`a b`) + lag(ZZ[:len(x)]) + center(`a b` * `a b`) + center(`a-b`)"
 UFORMULA = "center(x) + B + A + bs(w, df=3) + D:B:E + E:D:A:B + cr(x, knots=K, extrapolation='clip') + C(E, contr.treatment(base=LV2[1]), levels=LV2) + scale(`a b`) + scale(`a-b`) + poly(`a b`, 2) + I(`a b` + x) + lag(ZZ[:len(x)], 2):lag(ZZ[1:len(x) + 1])"
+# Family "contexts" of Session.tla: the names center / scale / tf / ns.tf are called by the builds of TWO contexts of one caller which bind them to different
+# kinds of callable (Session.tla: Env).  Context c (self.ctx): center, scale are the built-in stateful transforms, tf and ns.tf plain functions of the caller;
+# context x (self.xctx): center, scale are the caller's own plain functions (they shadow the built-ins), tf and ns.tf are decorated as stateful transforms.
+XFORMULA = "center(x) + scale(`a b`) + tf(x) + ns.tf(`a b`) + A:tf(x)"
+
+
+def plain_tf(col):
+    return col * 2.0
+
+
+def plain_center(col):
+    return col - 1000.0
+
+
+def plain_scale(col):
+    return col / 4.0
+
+
+def make_stateful_tf():
+    from formulaic.utils.stateful_transforms import stateful_transform
+
+    @stateful_transform
+    def tf(col, _state=None):          # remembers the maximum seen at the fit (state recorded in the spec, used at reuse)
+        if "top" not in _state:
+            _state["top"] = float(col.max())
+        return col / _state["top"]
+
+    return tf
+
+
+def ctx_repr(v):
+    """deterministic description of an object of a context (the repr of a function holds an address)"""
+    import types
+
+    if isinstance(v, types.SimpleNamespace):
+        return ("ns", sorted((k, ctx_repr(x)) for k, x in vars(v).items()))
+    if callable(v):
+        return ("callable", getattr(v, "__name__", "?"), bool(getattr(v, "__is_stateful_transform__", False)))
+    return repr(v)
 
 
 def fp_frame(df) -> str:
@@ -74,11 +113,15 @@ class Session:
     def __init__(self):
         from formulaic import Formula, ModelSpec
 
+        import types
+
         import numpy
 
         self.d1, self.d2 = frames()
         self.ctx = {"K": [1.5, 2.5], "LV": ["i", "h", "g"], "LV2": ["n", "m"], "SC": numpy.array([2.0, 3.0]),
-                    "ZZ": numpy.array([1.0, 4.0, 9.0, 16.0, 25.0, 36.0])}
+                    "ZZ": numpy.array([1.0, 4.0, 9.0, 16.0, 25.0, 36.0]), "tf": plain_tf, "ns": types.SimpleNamespace(tf=plain_tf)}
+        stf = make_stateful_tf()
+        self.xctx = {"center": plain_center, "scale": plain_scale, "tf": stf, "ns": types.SimpleNamespace(tf=stf)}
         self.f = Formula(FORMULA)
         self.u = ModelSpec.from_spec(UFORMULA)
         self.spec1 = None
@@ -87,7 +130,8 @@ class Session:
 
     def heap_fps(self):
         out = {"d1": fp_frame(self.d1), "d2": fp_frame(self.d2), "formula": fp_formula(self.f), "uspec": fp_spec(self.u),
-               "context": h(sorted((k, repr(v), type(v).__name__) for k, v in self.ctx.items()))}
+               "context": h(sorted((k, ctx_repr(v), type(v).__name__) for k, v in self.ctx.items())),
+               "xcontext": h(sorted((k, ctx_repr(v), type(v).__name__) for k, v in self.xctx.items()))}
         if self.spec1 is not None:
             out["spec1"] = fp_spec(self.spec1)
         return out
@@ -132,6 +176,11 @@ class Session:
                 mm = self.mat.get_model_matrix(FORMULA, output="sparse", drop_rows=drop)
             else:
                 mm = self.mat.get_model_matrix(self.ensure_spec1(), drop_rows=drop)
+        elif op in ("G1", "H1"):
+            mm = model_matrix(XFORMULA, self.d1, context=self.ctx if op == "G1" else self.xctx, drop_rows=drop)
+        elif op in ("GR", "HR"):           # fitted on d1 and reused at once on d2 (same context): the result shows what the fit recorded in the spec
+            c = self.ctx if op == "GR" else self.xctx
+            mm = model_matrix(XFORMULA, self.d1, context=c).model_spec.get_model_matrix(self.d2, context=c, drop_rows=drop)
         elif op == "UPD":
             mm = self.ensure_spec1().update(output="numpy").get_model_matrix(self.d2, context=self.ctx, drop_rows=drop)
         else:
